@@ -9,6 +9,8 @@ import YashModel.Syntax.FragmentLemmas
 import YashModel.Syntax.ParserLemmas
 import YashModel.Syntax.StructLemmas
 import YashModel.Syntax.Closed
+import YashModel.Syntax.Tables
+import YashModel.Syntax.LineLemmas
 namespace YashModel.Syntax
 
 /-- ★ Every escape unit the parser can produce is printed as text that the escape lexer reads back as the
@@ -503,5 +505,158 @@ theorem trailing_backslash_command_does_not_read_back :
         [.normal none .fileOut [.unquoted (.literal 'f')]]⟩, [';']) := by
   rfl
 
+
+/-! ## Wave 3: the tables of the code (re-extracted from /repo on every run) are what the model uses
+
+`tools/tables/syntax.py` writes `Generated/SyntaxTables.lean` from `lex/op.rs`, `lex/keyword.rs`, `lex/core.rs`,
+`syntax/conversions.rs` and `parser/list.rs`.  An edit of one of these tables in the Rust sources changes the
+generated file and breaks the theorem below that mentions it. -/
+
+open YashModel.Generated in
+/-- ★ The hand-written operator lexer is the walk of `Lexer::operator_tail` over the `OPERATORS` trie as the
+    sources define it — for every input, with line continuations at every peek. -/
+theorem lexOperator_eq_trie (cs : List Char) : lexOperator cs = trieOperator cs := Tbl.lexOperator_eq_trie cs
+
+open YashModel.Generated in
+/-- `Trie::edge` is a binary search: the edges of every node are sorted by key (so it is the `find?` of
+    `trieTail`). -/
+theorem trie_sorted :
+    SyntaxTables.operatorTrie.all (fun edges => (edges.map (·.1.toNat)).Pairwise (· < ·)) = true := Tbl.trie_sorted
+
+open YashModel.Generated in
+/-- the model's `Op` is `enum Operator`, variant by variant in declaration order, and `Op.all` lists them all -/
+theorem op_enum_is_operator : Op.all.map Op.name = SyntaxTables.operatorVariants ∧ ∀ o : Op, o ∈ Op.all :=
+  ⟨Tbl.op_names, Tbl.op_all_complete⟩
+
+/-- ★ Every operator text of `Operator::as_str` is read by the operator lexer as that operator (the printer
+    writes operators through `as_str`; the trie and `as_str` agree on all 25). -/
+theorem operator_texts_read_back : ∀ o ∈ Op.all, lexOperator o.str = some (o, []) := Tbl.operator_texts_read_back
+
+open YashModel.Generated in
+/-- `RedirOp::try_from(Operator)`, and the text printed for a redirection operator
+    (`Operator::from(op).as_str()`), are the generated tables -/
+theorem redirOp_tables (o : Op) (r : RedirOp) :
+    (redirOpOf o).map RedirOp.name = SyntaxTables.redirOpOfOperator.lookup o.name ∧
+    r.str = strVia SyntaxTables.operatorOfRedirOp r.name :=
+  ⟨Tbl.redirOpOf_eq_table o, Tbl.redirOp_str_eq_table r⟩
+
+/-- a printed redirection operator is read back as the operator that converts to it -/
+theorem redirOp_reads_back (r : RedirOp) :
+    ∃ o, lexOperator r.str = some (o, []) ∧ redirOpOf o = some r := by
+  cases r
+  · exact ⟨.less, by decide, rfl⟩
+  · exact ⟨.lessGreater, by decide, rfl⟩
+  · exact ⟨.greater, by decide, rfl⟩
+  · exact ⟨.greaterGreater, by decide, rfl⟩
+  · exact ⟨.greaterBar, by decide, rfl⟩
+  · exact ⟨.lessAnd, by decide, rfl⟩
+  · exact ⟨.greaterAnd, by decide, rfl⟩
+  · exact ⟨.greaterGreaterBar, by decide, rfl⟩
+  · exact ⟨.lessLessLess, by decide, rfl⟩
+
+open YashModel.Generated in
+/-- `CaseContinuation::try_from(Operator)` and the printed terminator are the generated tables -/
+theorem caseCont_tables (o : Op) (k : CaseCont) :
+    (caseContOf o).map CaseCont.name = SyntaxTables.caseContinuationOfOperator.lookup o.name ∧
+    k.str = strVia SyntaxTables.operatorOfCaseContinuation k.name :=
+  ⟨Tbl.caseContOf_eq_table o, Tbl.caseCont_str_eq_table k⟩
+
+/-- a printed case terminator is read back as an operator that converts to it (`;;&` also gives `Continue`) -/
+theorem caseCont_reads_back (k : CaseCont) :
+    ∃ o, lexOperator k.str = some (o, []) ∧ caseContOf o = some k := by
+  cases k
+  · exact ⟨.semicolonSemicolon, by decide, rfl⟩
+  · exact ⟨.semicolonAnd, by decide, rfl⟩
+  · exact ⟨.semicolonBar, by decide, rfl⟩
+
+open YashModel.Generated in
+/-- `&&` / `||`: the texts `printAndOrRest` writes and the operators `parseAndOrTail` accepts -/
+theorem andOr_tables :
+    strVia SyntaxTables.operatorOfAndOr "AndThen" = "&&".toList ∧
+    strVia SyntaxTables.operatorOfAndOr "OrElse" = "||".toList ∧
+    SyntaxTables.andOrOfOperator = [(Op.andAnd.name, "AndThen"), (Op.barBar.name, "OrElse")] := Tbl.andOr_tables
+
+open YashModel.Generated in
+/-- the model's reserved words are exactly the strings `Keyword::from_str` accepts -/
+theorem keywords_eq_table : keywords = SyntaxTables.keywordFromStr.map (·.1.toList) := Tbl.keywords_eq_table
+
+open YashModel.Generated in
+/-- `Keyword::as_str` and `Keyword::from_str` are inverse to each other on all variants -/
+theorem keyword_as_str_from_str :
+    SyntaxTables.keywordAsStr.map (·.1) = SyntaxTables.keywordVariants ∧
+    (∀ p ∈ SyntaxTables.keywordAsStr, SyntaxTables.keywordFromStr.lookup p.2 = some p.1) ∧
+    SyntaxTables.keywordFromStr.length = SyntaxTables.keywordAsStr.length := Tbl.keyword_as_str_from_str
+
+open YashModel.Generated in
+/-- ★ the model's `Token.isClauseDelimiter` is `TokenId::is_clause_delimiter` with
+    `Keyword::is_clause_delimiter` / `Operator::is_clause_delimiter` as the sources define them, for every
+    token -/
+theorem isClauseDelimiter_eq_table (t : Token) :
+    t.isClauseDelimiter = isClauseDelimiterGen t ∧
+    SyntaxTables.tokenIdClauseDelimiter.lookup "Token(Some(_))" = some "keyword" ∧
+    SyntaxTables.tokenIdClauseDelimiter.lookup "Operator(_)" = some "operator" :=
+  ⟨Tbl.isClauseDelimiter_eq_table t, Tbl.tokenId_clause_dispatch⟩
+
+open YashModel.Generated in
+/-- what `Parser::command_line` accepts after a line that no newline ends: the end of input only -/
+theorem commandLine_trailing_table : SyntaxTables.commandLineAcceptedTrailing = ["EndOfInput"] :=
+  Tbl.commandLine_trailing_table
+
+/-! ## Wave 3: command lines and scripts up to the end of input
+
+`parseCommandLine` transcribes `Parser::command_line`, the entry point of the shell's read-eval loop;
+`parseScript` reads command lines until the end of input.  The earlier statements end a program with `)`;
+these end it the way a script does — with a newline, and the script with the end of input. -/
+
+/-- ★ A printed list of the closed fragment followed by a newline is read back by `Parser::command_line`
+    as that list, and the line is consumed up to and including the newline (`l = []` is the blank line). -/
+theorem command_line_roundtrip (l : List Item) (rest : List Char) (h : LineOk l rest) :
+    parseLine (printList false l ++ '\n' :: rest) = some (some l, rest) := by
+  unfold parseLine
+  have hd := ldepth_le false l
+  exact commandLine_rt _ l rest h (by simp only [List.length_append, List.length_cons]; omega)
+
+/-- at the end of input `Parser::command_line` answers `Ok(None)` -/
+theorem command_line_end_of_input : parseLine [] = some (none, []) := commandLine_eof _
+
+/-- ★ A script — every list printed on its own line — is read back line by line as those lists, up to the real
+    end of input, with the nesting budget and the loop fuel taken from the input length as the driver does. -/
+theorem script_roundtrip (ls : List (List Item)) (h : ScriptOk ls) : parseScript (scriptText ls) = some ls :=
+  script_rt ls h
+
+theorem nested_line_ok (rest : List Char) : LineOk nested rest := by
+  simp only [LineOk, nested, it1, ItemsOk, AndOrOk, AndOrRestOk, PipelineOk, CommandsOk, CommandOk,
+    CompoundOk, ElifsOk, RedirsOk, pipeRest, aoRest, printRedirsSp, List.nil_append, List.singleton_append, List.cons_append, ne_eq, reduceCtorEq, not_false_eq_true, List.cons_ne_self, and_true,
+    true_and, Bool.false_eq_true, if_false, if_true]
+  and_intros
+  all_goals first
+    | trivial
+    | exact leaf_ok _ _ (by decide) (by decide) (by decide) _ (tailOk_cons _ _ (by decide))
+    | exact leaf_ok _ _ (by decide) (by decide) (by decide) _ ⟨true, _, _, rfl, by decide⟩
+    | exact tailOk_cons _ _ (by decide)
+    | exact ⟨true, _, _, rfl, by decide⟩
+    | skip
+
+theorem nested2_line_ok (rest : List Char) : LineOk nested2 rest := by
+  simp only [LineOk, nested2, it1, lw, ItemsOk, AndOrOk, AndOrRestOk, PipelineOk, CommandsOk, CommandOk,
+    CompoundOk, CaseItemsOk, PatsOk, ForWordsOk, ElifsOk, RedirsOk, pipeRest, aoRest, printRedirsSp,
+    List.nil_append, List.singleton_append, List.cons_append, ne_eq, reduceCtorEq, not_false_eq_true,
+    List.cons_ne_self, and_true, true_and, Bool.false_eq_true, if_false, if_true]
+  and_intros
+  all_goals first
+    | trivial
+    | exact leaf_ok _ _ (by decide) (by decide) (by decide) _ (tailOk_cons _ _ (by decide))
+    | exact tailOk_cons _ _ (by decide)
+    | exact plainArg_tok _ (by decide) _
+    | exact ⟨plainArg_tok _ (by decide) _, plainArg_noAssign _ (by decide), by decide, by decide⟩
+
+/-- non-vacuity: the two nested programs and a blank line as a three-line script, read to the end of input -/
+example : parseScript (scriptText [nested, [], nested2]) = some [nested, [], nested2] :=
+  script_roundtrip _ ⟨nested_line_ok _, trivial, nested2_line_ok _, trivial⟩
+
+example : scriptText [nested, [], nested2] =
+    ("{ while a; do (b x) | c && ! d& done; if e; then f; elif g; then h; else i; fi; }\n\n" ++
+     "f() { for x in a b; do case y in (p | q) c;; (r) ;& (s) d&;| esac; done; } >o\n").toList := by
+  decide +kernel
 
 end YashModel.Syntax
